@@ -120,7 +120,8 @@ claim("C07",
 claim("C08",
       "Lean theorems KB.Props.C08: for every store, request revision, failure mask and engine, doCompact never lowers the floor (exactly max(old, clamped "
       "revision)), the floor is >= every accepted revision, writes never touch the record, and List/Count/stream below the floor are refused. "
-      "Correspondence: compaction sequences (increasing, repeated, older, 0, above current) interleaved with writes and reads on three engines; floor record read back.",
+      "KB.Props.C08Fault (model KB.CompactFault): the same when the scanner's read of the compaction record fails with a transient error in any border pair - the floor afterwards is max(old, accepted revision), an older request never lowers it (after fix 539af5f; the code before it is refuted by the decided witness `recfault_old_lowers_floor`). "
+      "Correspondence: compaction sequences (increasing, repeated, older, 0, above current) interleaved with writes and reads on three engines, with skipped directories up to the whole directory of the prefix; floor record read back; compactions whose first or second read of the record fails once (`getfault [skip=1]`), older requests included.",
       TB + "A single compactor (the leader's periodic job).",
       "Lean 4 proof (direct, over the compaction model) + differential correspondence", "DESIGN.md §5 C08")
 claim("C14",
@@ -166,7 +167,7 @@ claim("C18",
       "a forwarded transaction is executed at most once and a lost answer is passed on as Unavailable (`forward_at_most_once`). KB.Props.C18Cas: the revision allocator "
       "(tso.go) as a transition system at ATOMIC-INSTRUCTION granularity, any number of goroutines, every schedule: neither register ever decreases, Deal results are unique and "
       "increase in real time, after Commit(r) both registers stay >= r and every later Deal is above r, a failed compare-and-swap means another goroutine raised the register "
-      "(bounded retries); the pre-fix plain store / single CAS are refuted; the loop SHAPE of tso.go is regenerated from the source and compared by `source_matches_lts`. Correspondence: every handler x role x proxy x "
+      "(bounded retries); the pre-fix plain store / single CAS are refuted; the loop SHAPE of tso.go is regenerated from the source and compared by `source_matches_lts`. KB.Props.C18Gen: the repair proposed for the known finding (generation number per fetch; proposed-fixes/, not applied) is sufficient as written, at atomic-instruction granularity incl. the window between the registration of a call and its numbering (`follower_read_fresh_gen`), and costs a reader at most one extra round (`rejected_at_most_once`) - a theorem about the proposal, the finding stays known. Correspondence: every handler x role x proxy x "
       "leader behaviour (exhaustive), follower schedules on the real syncer incl. revisions above 2^53, forwarded transactions through the real etcd proxy with lost answers.",
       TB + "kbextract's syntactic guard analysis (cross-checked row by row by the exhaustive run); role does not change within a request.",
       "Lean 4 proof + decide over a regenerated table + exhaustive differential table run", "docs/DESIGN-C18.md")
